@@ -59,25 +59,7 @@ def pfrac(p):
 
 
 
-def random_dyadic_ensembles(count, seed):
-    """seeded family of dyadic ensembles (thorough tier): n in 2..4 states, d in 2..3, complex entries k/4, dyadic prior"""
-    import os
-    rng = np.random.default_rng(1000 + seed + int(os.environ.get("VERIF_SEED", "0") or 0))
-    fam = []
-    for t in range(count):
-        n = int(rng.integers(2, 5))
-        d = int(rng.integers(2, 4))
-        vs = []
-        for _ in range(n):
-            v = rng.integers(-3, 4, size=d) / 4.0 + 1j * rng.integers(-3, 4, size=d) / 4.0
-            if not np.any(v):
-                v[0] = 1.0
-            vs.append(v if t % 2 == 0 else v.reshape(-1, 1))
-        w = [2.0 ** -(k + 1) for k in range(n)]
-        w[-1] = 2.0 ** -(n - 1)
-        rng.shuffle(w)
-        fam.append((f"seeded dyadic ensemble #{t} (n={n}, d={d})", vs, list(w)))
-    return fam
+from props.c10 import random_dyadic_ensembles      # noqa: E402  (same seeded family, different seed)
 
 
 def instances(tier):
@@ -92,11 +74,13 @@ def instances(tier):
                 [np.array([1.0, 0.5]), np.array([0.5, 0.5j]), np.array([0.25 + 0.5j, 1.0])], [0.25, 0.5, 0.25]))
     fam.append(("2 qubit density matrices, first stored as an integer array, second complex, prior (1/4,3/4)",
                 [np.array([[1, 0], [0, 0]]), np.array([[0.5, -0.5j], [0.5j, 0.5]])], [0.25, 0.75]))
+    # a prior with an entry exactly 0 (the state is never prepared, but excluding it is still required to be free)
+    fam.append(("3 complex qubit kets, prior (1/2,1/2,0)", [np.array([1, 0j]), np.array([0.5, 0.5]), np.array([0.5, 0.5j])], [0.5, 0.5, 0.0]))
     fam.append(("4 complex qubit kets, uniform", [np.array([1, 0j]), np.array([0, 1j]), np.array([0.5, 0.5j]), np.array([0.5, -0.5])], None))
     if T:
         fam.append(("5 complex qubit kets", [np.array([1, 0j]), np.array([0, 1j]), np.array([0.5, 0.5j]), np.array([0.5, -0.5]), np.array([0.25, 0.75j])], [0.125, 0.125, 0.25, 0.25, 0.25]))
         fam.append(("3 complex d=4 kets", [np.array([1, 0, 0.5j, 0]), np.array([0.5, 0.5, 0, 0.5j]), np.array([0, 0.25, 0.25j, 1])], [0.5, 0.25, 0.25]))
-        fam += random_dyadic_ensembles(12, 11)
+        fam += random_dyadic_ensembles(60, 11)
     return fam
 
 
@@ -241,6 +225,8 @@ def obligations(tier):
         n = len(vs)
         pp = ps if ps is not None else [1.0 / n] * n
         for strat in ["min_error", "unambiguous"]:
+            if strat == "unambiguous" and ps is not None and min(ps) == 0:
+                continue      # with a zero prior one unambiguous-exclusion constraint is vacuous: the negative control cannot be refuted
             for pd in ["primal", "dual"]:
                 cfg = {"instance": name, "strategy": strat, "primal_dual": pd}
                 obs.append(SdpTask("state_exclusion.program_is_textbook_program", cfg,
